@@ -988,27 +988,48 @@ impl InferContext {
         let errors: Vec<_> = sorted_by_name(type_aliases)
             .into_iter()
             .filter_map(|(alias_name, target_type)| {
-                Self::detect_type_alias_cycle(*alias_name, type_aliases).map(|cycle| {
-                    Error::RecursiveTypeAlias {
+                self.detect_type_alias_cycle(*alias_name, type_aliases)
+                    .map(|cycle| Error::RecursiveTypeAlias {
                         type_name: *alias_name,
                         cycle,
                         location: target_type.to_loc(),
-                    }
-                })
+                    })
             })
             .collect();
 
+        // A cyclic alias can never be resolved. Unregister it and bind its name to the failure
+        // type, so that resolve_type_alias and convert_unknown_to_intermediate (which follow
+        // aliases recursively) terminate when the alias is used after this diagnostic.
+        for e in &errors {
+            if let Error::RecursiveTypeAlias {
+                type_name,
+                location,
+                ..
+            } = e
+            {
+                self.type_aliases.remove(type_name);
+                let failure = Type::Failure.into_id_with_location(location.clone());
+                self.env
+                    .add_bind(&[(*type_name, (failure, EvalStage::Persistent))]);
+            }
+        }
         self.errors.extend(errors);
     }
 
     /// Detect a cycle starting from a given type alias name
     /// Returns Some(cycle) if a cycle is found, None otherwise
-    fn detect_type_alias_cycle(start: Symbol, type_aliases: &TypeAliasMap) -> Option<Vec<Symbol>> {
-        Self::detect_cycle_helper(start, vec![], type_aliases).map(|t| t.0)
+    fn detect_type_alias_cycle(
+        &self,
+        start: Symbol,
+        type_aliases: &TypeAliasMap,
+    ) -> Option<Vec<Symbol>> {
+        self.detect_cycle_helper(start, vec![], type_aliases)
+            .map(|t| t.0)
     }
 
     /// Helper function for cycle detection
     fn detect_cycle_helper(
+        &self,
         current: Symbol,
         path: Vec<Symbol>,
         type_aliases: &TypeAliasMap,
@@ -1024,7 +1045,9 @@ impl InferContext {
             Self::find_type_aliases_in_type(*target_type)
                 .into_iter()
                 .find_map(|ref_alias| {
-                    Self::detect_cycle_helper(ref_alias, new_path.clone(), type_aliases)
+                    // a reference is resolved like at its uses (`P` inside `mod m` names `m$P`)
+                    let ref_alias = self.resolve_type_alias_symbol_fallback(ref_alias);
+                    self.detect_cycle_helper(ref_alias, new_path.clone(), type_aliases)
                 })
         })
     }
